@@ -9,7 +9,7 @@ import z3
 
 from . import types as Ty
 from .types import V, Int, Bool, Key, Real
-from .engine import Unsupported, NeedSplit, Ref, Obj, ObjT, PyConst, RaiseSignal, PathEnd
+from .engine import Unsupported, NeedSplit, Ref, Obj, ObjT, PyConst, RaiseSignal, PathEnd, Heap
 
 
 def _args(engine, st, node):
@@ -87,7 +87,7 @@ def spec_call(engine, st, name, node):
         saved = (st.vars, st.heap)
         # evaluate in the pre-state (parameters keep their names)
         tmp = st.clone()
-        tmp.vars, tmp.heap = dict(s_old[0]), dict(s_old[1])
+        tmp.vars, tmp.heap = dict(s_old[0]), Heap(s_old[1])
         tmp.old = None
         # values created after the pre-state (e.g. `result`, quantified
         # variables) stay visible by value inside old(...)
@@ -107,7 +107,7 @@ def spec_call(engine, st, name, node):
         if snap is None:
             raise Unsupported("prev() outside a loop iteration contract")
         tmp = st.clone()
-        tmp.vars, tmp.heap = dict(snap[0]), dict(snap[1])
+        tmp.vars, tmp.heap = dict(snap[0]), Heap(snap[1])
         v = engine.eval(tmp, node.args[0])
         if isinstance(v, Ref):
             return tmp.heap[v.id]
@@ -946,7 +946,7 @@ def modular_call(engine, st, callee, argmap, node, self_val=None):
         for j, pre in enumerate(callee.requires):
             g = engine.eval_spec(st, pre)
             engine.oblige(st, g, f"call-site precondition {j} of {callee.short} at line {engine.line(node)}: {pre}", "call-pre", node)
-        old_snapshot = (dict(st.vars), dict(st.heap))
+        old_snapshot = (dict(st.vars), st.heap.plain())
         # result
         res = None
         if callee.returns is not None:
@@ -1046,6 +1046,12 @@ def eval_call(engine, st, node):
             raise Unsupported(f"call to {qual}")
         from .engine import MUTATORS
 
+        if (meth in MUTATORS and isinstance(bv, V) and not isinstance(base, Ref) and bv.t.mutable and isinstance(f.value, ast.Call)
+                and isinstance(f.value.func, ast.Attribute) and f.value.func.attr == "setdefault" and len(f.value.args) == 2):
+            # d.setdefault(k, v).mutate(...): the value returned IS the entry of d
+            vref = engine.view_of_entry(st, f.value.func.value, f.value.args[0], bv)
+            if isinstance(vref, Ref):
+                return method_call(engine, st, vref, st.heap[vref.id], meth, node)
         if meth in MUTATORS and isinstance(bv, V) and not isinstance(base, Ref) and bv.t.mutable and isinstance(f.value, (ast.Subscript, ast.Attribute, ast.Name)):
             # mutating a container held by value inside another container:
             # run the method on a temporary and write the result back
